@@ -70,6 +70,8 @@ def gen_scenario(ctx, k):
                 a_ = rng.choice([b for b in movable if cfggen.secack(b)] or movable)
                 diff = [b for b in others if b is not a_ and cfggen.secack(b) != cfggen.secack(a_)]
                 b_ = rng.choice(diff or [b for b in others if b is not a_])
+                if rng.random() < 0.4:
+                    b_ = a_           # the lost board itself logs on again: it is the same configured board, with the same SecAck setting
                 old = m.addr[a_['id']]
                 lost = bytes([2, old[0]]) + a_['uid']
                 new = bytes([3, old[0]]) + b_['uid']
